@@ -54,9 +54,22 @@ type udpEv struct {
 	A, B   int64
 }
 type recUDP struct {
-	mu   sync.Mutex
-	evs  []udpEv
-	next int
+	mu    sync.Mutex
+	evs   []udpEv
+	next  int
+	storm bool // more reports than any case can account for: recording stopped (the server is looping)
+}
+
+const recUDPMax = 20000
+
+// full reports whether recording has stopped (call with mu held)
+func (r *recUDP) full() bool {
+	if len(r.evs) >= recUDPMax {
+		r.storm = true
+		time.Sleep(time.Millisecond) // do not feed a packet storm at full speed
+		return true
+	}
+	return false
 }
 type recUDPConn struct {
 	r  *recUDP
@@ -74,11 +87,17 @@ func (r *recUDP) AddUDPNatEntry(clientAddr net.Addr, accessKey string) service.U
 func (c *recUDPConn) AddPacketFromClient(status string, a, b int64) {
 	c.r.mu.Lock()
 	defer c.r.mu.Unlock()
+	if c.r.full() {
+		return
+	}
 	c.r.evs = append(c.r.evs, udpEv{Kind: "pktclient", Assoc: c.id, Status: status, A: a, B: b})
 }
 func (c *recUDPConn) AddPacketFromTarget(status string, a, b int64) {
 	c.r.mu.Lock()
 	defer c.r.mu.Unlock()
+	if c.r.full() {
+		return
+	}
 	c.r.evs = append(c.r.evs, udpEv{Kind: "pkttarget", Assoc: c.id, Status: status, A: a, B: b})
 }
 func (c *recUDPConn) RemoveNatEntry() {
@@ -92,6 +111,9 @@ func (c *recUDPConn) RemoveNatEntry() {
 func (r *recUDP) AddCipherSearch(found bool, d time.Duration) {
 	r.mu.Lock()
 	defer r.mu.Unlock()
+	if r.full() {
+		return
+	}
 	r.evs = append(r.evs, udpEv{Kind: "search", Status: fmt.Sprint(found)})
 }
 
@@ -572,6 +594,11 @@ func runUDPCase(cs *udpCaseSpec) (obs []udpOpObs, tports []int, fatal string, sh
 			shutdownRemoved++
 		}
 	}
+	rec.mu.Lock()
+	if rec.storm && fatal == "" {
+		fatal = fmt.Sprintf("report storm: the handler issued more than %d metric reports for %d client operations (datagrams are being relayed that no client or target of the case sent)", recUDPMax, len(cs.Ops))
+	}
+	rec.mu.Unlock()
 	return obs, tports, fatal, shutdownRemoved
 }
 
